@@ -23,13 +23,15 @@ Proved here (all rows / plans / databases):
   the nested-loop reference plan.
 
 * **`where_clause_correct`**: for every WHERE clause of the fragment `okPat` (BGPs, nested groups with group-scoped
-  FILTERs over certainly-bound variables, UNION, GRAPH <iri> / GRAPH ?g, VALUES/UNDEF), every dataset, every dataset
+  FILTERs over certainly-bound variables, UNION, GRAPH <iri> / GRAPH ?g, VALUES/UNDEF, sub-selects with arbitrary
+  solution modifiers over one triple pattern), every dataset, every dataset
   clause (FROM / FROM NAMED replacement) and every plan the optimizer may pick, the solutions the executor produces are
   exactly the multiset of the SPARQL algebra; `select_correct_partial` lifts this through `finalize_select` for
   queries without aggregate / DISTINCT / ORDER BY / LIMIT.
 
 /- FULL: `∀ q` of the supported fragment, `runSelect db q algs` is a legal answer for `specSelect db q`.
-   Not proved: BIND and sub-selects in the WHERE clause (see `Props/C02.lean`), and the modifiers on permuted
+   Not proved: BIND and sub-selects over more than one triple pattern in the WHERE clause (see `Props/C02.lean`; the
+   modifiers of a sub-select see a sequence, and different join algorithms give different sequences), and the modifiers on permuted
    inputs — ORDER BY ties, LIMIT cuts, DISTINCT representatives and the first row of a GROUP are legal choices, so
    equality of tables is not the right statement there; the harness checks sortedness and the legal-cut property on
    the real output. -/
@@ -144,6 +146,34 @@ theorem select_correct_partial (db : DB) (q : Select) (h : okPat q.where_ = true
     (algs : List JoinAlg) : runSelect db q algs ~ specSelect db q := by
   unfold runSelect specSelect
   exact finalize_plain_perm q hp hd ho hl (where_clause_correct db q h algs)
+
+/-! ## sub-selects -/
+
+/-- **a sub-select under `GRAPH ?g`** (any projection, aggregates, GROUP BY, ORDER BY, DISTINCT, LIMIT over one triple
+    pattern) is evaluated, under every plan, to the algebra's solutions: one evaluation of the sub-select per visible
+    named graph, against that graph only -/
+theorem subselect_under_graph_var_correct (db : DB) (q : Select) (v : Var) (t : Term × Term × Term) (spec : Spec)
+    (hq : q.where_ = .graph (.var v) (.group [.sub (.bgp [t]) spec])) (algs : List JoinAlg) :
+    exec db (implement algs (lower .dflt q.where_)).1 ⟨datasetView db q, none⟩ [[]] ~
+      sem db ⟨datasetView db q, none⟩ q.where_ :=
+  where_clause_correct db q (by rw [hq]; rfl) algs
+
+/-- the sub-select case of the fragment is inhabited (also joined with other elements, inside UNION, …) -/
+example (t u : Term × Term × Term) (spec : Spec) :
+    okPat (.group [.bgp [u], .graph (.var 7) (.group [.sub (.bgp [t]) spec]), .union [.sub (.bgp [t]) spec, .unit]]) = true := rfl
+
+/-- the repaired defect (`fix:` dd38f08), as a witness: with the variable graph scope carried onto the sub-select's scan
+    (the plan the old lowering produced) every named graph reports the sub-select's rows of *all* graphs - two rows
+    where the algebra has one - whereas the plan of the current lowering returns exactly the algebra's answer -/
+theorem carried_graph_scope_clash :
+    let db : DB := ⟨[⟨"s", "p", "o", some "g1"⟩], ["g1", "g2"]⟩
+    let ctx : Ctx := ⟨View.fromDb db, none⟩
+    let spec : Spec := ⟨some [.var 1], false, [], [], none⟩
+    let pat : Pat := .graph (.var 0) (.sub (.bgp [(.var 1, .const "p", .var 2)]) spec)
+    let oldPlan : Plan := .graph (.subquery (.scan ⟨.var 1, .const "p", .var 2, .var 0⟩) spec) (.var 0)
+    (exec db oldPlan ctx [[]]).length = 2 ∧ (sem db ctx pat).length = 1 ∧
+      exec db (implBind (lower .dflt pat)) ctx [[]] = sem db ctx pat := by
+  decide
 
 /-! ## dataset scoping -/
 
